@@ -19,7 +19,7 @@ import nostr_relay.web as W
 from aionostr.event import Event
 
 from refs import jsonlex
-from vk.ob import obligation, PARAM, pick
+from vk.ob import obligation, PARAM, pick, real_lru_cache, fresh_module_state
 
 jsonlex.selftest()
 ALPH = 'a"\\\x00\n\x1f\x7fé \U0001F600'
@@ -70,31 +70,41 @@ def ob_event_frame_string(s: str) -> str:
     return _judge(frame, _ref_event_frame(sub_id, ev), ["EVENT", sub_id, ev.to_json_object()])
 
 
-_ITEMS = ("a", '"', 7, None, True, ["n", 1.5])
+_ITEMS = ("a", '"', 7, None, True, ["n", 1.5], 1.0, False, 0.0)
+_ITEMS_B = (True, 1.0, 0)
 
 
 @obligation(funcs=["util.event_as_json"], timeout=(120, 600),
             bounds="tag structure symbolic: 1-2 tags (name + 0-2 items; second tag name + 0-1 items) drawn by symbolic "
-                   "selector from {'a', quote, 7, null, true, nested list with a float} (non-string tag values are admissible: "
+                   "selector from {'a', quote, 7, null, true, nested list with a float, 1.0, false, 0.0} (values that compare equal across JSON types included) (non-string tag values are admissible: "
                    "the repo's tests store [\"expiration\", 1672329427])")
 def ob_event_frame_structure(a: List[int], b: List[int], two: bool) -> str:
     """
-    pre: len(a) <= 2 and len(b) <= 1 and all(0 <= i < 6 for i in a) and all(0 <= i < 6 for i in b)
+    pre: len(a) <= 2 and len(b) <= 1 and all(0 <= i < 9 for i in a) and all(0 <= i < 3 for i in b)
     pre: two or not b
     post: _.startswith("ok")
     """
     logging.disable(logging.CRITICAL)
+    real_lru_cache()          # caches inside the serializer keep their real semantics (arguments are concrete here)
+    fresh_module_state(U)
     _stub()
-    tags = [["t"] + [pick(_ITEMS, i) for i in a]] + ([["u"] + [pick(_ITEMS, i) for i in b]] if two else [])
+    tags = [["t"] + [pick(_ITEMS, i) for i in a]] + ([["u"] + [pick(_ITEMS_B, i) for i in b]] if two else [])
     ev = Event(pubkey=PK, content="c", created_at=5, kind=1, tags=tags, id=ID, sig=SIG)
     frame = U.event_as_json("s", ev)
     try:
         got = json.loads(frame)
     except ValueError:
         return "frame is not JSON: %r" % (frame,)
-    if got != ["EVENT", "s", ev.to_json_object()]:
-        return "frame parses to %r, want %r" % (got, ev.to_json_object())
+    if got != ["EVENT", "s", ev.to_json_object()] or not _same_types(got[2]["tags"], tags):
+        return "frame parses to %r, want %r" % (got[2]["tags"], tags)
     return "ok"
+
+
+def _same_types(a, b):
+    """JSON true/1/1.0 compare equal in Python: the served value must also have the accepted TYPE"""
+    if isinstance(a, list) and isinstance(b, list):
+        return len(a) == len(b) and all(_same_types(x, y) for x, y in zip(a, b))
+    return type(a) is type(b) and a == b
 
 
 class _NumHole(int):
@@ -169,3 +179,88 @@ def ob_sender_frames(sub_id: str) -> str:
     if PARAM == 0:
         return _judge(sent[0], '["EOSE",%s]' % jsonlex.ebs(sub_id), ["EOSE", sub_id])
     return _judge(sent[0], _ref_event_frame(sub_id, ev), ["EVENT", sub_id, ev.to_json_object()])
+
+
+_TAGSHAPES = ([], [["e", "x"]], [["d"]], [["d"], ["t", "nostr"], ["client", "demo"]], [["t", 5]], [["e", ""], ["e", ""]],
+              [["p"], ["expiration", "99"]])
+
+
+@obligation(funcs=["storage.db.DBStorage.add_event", "storage.db.DBStorage.process_tags", "storage.db.event_from_tuple",
+                   "storage.kv.LMDBStorage.add_event", "storage.kv.encode_event", "storage.kv.decode_event", "storage.kv.matcher"],
+            params=range(2), timeout=(200, 900),
+            bounds="PARAM 0 SQL / 1 LMDB.  An accepted event with symbolic kind/created_at and tags from 7 shapes (bare, empty, "
+                   "duplicate, int value, long names) is compared field for field with (a) the object pushed live, (b) the event "
+                   "read back from storage (SQL row -> event_from_tuple; LMDB msgpack row -> decode_event and the matcher's "
+                   "reconstruction)")
+def ob_served_verbatim(kind: int, ts: int, tsel: int) -> str:
+    """
+    pre: 0 <= kind < 40000 and 1 <= ts < 4294967296 and 0 <= tsel < 7
+    post: _.startswith("ok")
+    """
+    logging.disable(logging.CRITICAL)
+    import copy
+    tags = copy.deepcopy(pick(_TAGSHAPES, tsel))
+    submitted = dict(id=ID, pubkey=PK, created_at=ts, kind=kind, tags=copy.deepcopy(tags), content="hello \" there", sig=SIG)
+    want = dict(submitted, tags=copy.deepcopy(tags))
+    if PARAM == 0:
+        from harness import _sqlstore as S
+        from nostr_relay.storage import db as D
+        st = S.make_store()
+        S.drive(st.add_event(submitted))
+        pushed = st.pushed
+        rows = st.db.tables["events"]
+        if len(rows) != 1:
+            return "event not stored"
+        r = rows[0]
+        back = D.event_from_tuple((r["id"], r["created_at"], r["kind"], r["pubkey"], r["tags"], r["sig"], r["content"]))
+        served = [back.to_json_object()]
+    else:
+        from envmodel import kvworld as W
+        from envmodel.fake_asyncio import Loop
+        from harness import _webcommon as C
+        from nostr_relay.storage import kv
+        loop = Loop()
+        C.install(loop)
+        st = C.Store(loop)
+        env = W.new_env()
+        st.db = env
+        pushed = []
+
+        async def notify_all(event):
+            pushed.append(event)
+
+        st.notify_all_connected = notify_all
+        coro = st.add_event(submitted, auth_token={})
+        try:
+            coro.send(None)
+        except StopIteration:
+            pass
+        W.run_writer(env, st.queued())
+        served = []
+        if not (20000 <= kind < 30000):
+            with env.begin() as txn:
+                data = kv.get_event_data(txn, bytes.fromhex(ID))
+                if not data:
+                    return "event not stored"
+                served.append(kv.decode_event(data).to_json_object())
+                for e in kv.matcher(txn, [bytes.fromhex(ID)], (), {}):
+                    served.append(e.to_json_object())
+    for p in pushed:
+        if not _same_event(p.to_json_object(), want):
+            return "live push differs from the accepted event: %r vs %r" % (p.to_json_object(), want)
+    if len(pushed) != 1:
+        return "pushed %d times" % len(pushed)
+    for sv in served:
+        if not _same_event(sv, want):
+            return "served event differs from the accepted event: %r vs %r" % (sv, want)
+    return "ok"
+
+
+def _norm(x):
+    if isinstance(x, (list, tuple)):
+        return [_norm(i) for i in x]
+    return x
+
+
+def _same_event(a, b):
+    return all(_same_types(_norm(a[k]), _norm(b[k])) for k in ("id", "pubkey", "created_at", "kind", "tags", "content", "sig"))
